@@ -93,5 +93,32 @@ PROPS["C09"] = {
     "assumptions": [], "outside": "",
 }
 
+PROPS["C14"] = {
+    "programs": {"quick": [P("test", "VerifReifyTotal", must_reach=("end","non-dagpb","link-map","file","directory","symlink-metadata","shard-valid","shard-invalid","unknown-type"))]},
+    "bounds": {"quick": "node classes: 4 non-dag-pb kinds; dag-pb without Data / 3 undecodable payload shapes, 0..1 links; decodable Data with type = any int64, inline Data 0..2 bytes, hashType/fanout present or not with any uint64 value, 0..1 links; lazy and preload reifiers"},
+    "assumptions": [], "outside": "",
+}
+
+PROPS["C10"] = {
+    "programs": {"quick": [P("test", "VerifShardedDirDeterminism", lg=3, entries=2, maxdepth=2),
+                           P("test", "VerifPlainDirDeterminism", entries=3),
+                           P("test", "VerifFileFragmentation", w=2, k=2, maxlen=5)]},
+    "bounds": {"quick": "sharded dir: 2 entries, fanout 8, depth<=2, all map-iteration orders x both entry orders; plain dir: 3 entries, all 6 orders; file: 0..5 bytes size-2, every fragmentation with fragments 1..3"},
+    "assumptions": [], "outside": "",
+}
+PROPS["C06"] = {
+    "programs": {"quick": [P("test", "VerifFileFullReadOrder", must_reach=("end","preload"), w=2, k=1, maxlen=6),
+                           P("test", "VerifFileMissingBlock", w=2, k=1, maxlen=5)]},
+    "bounds": {"quick": "files 0..6 chunks w=2: preload fetches all blocks once, in order, nothing else; every single missing block makes preload fail"},
+    "assumptions": [], "outside": "",
+}
+PROPS["C08"] = {
+    "programs": {"quick": [P("test", "VerifShardedDir", lg=3, entries=2, maxdepth=2),
+                           P("data/builder", "VerifBuilderSlice", must_reach=("end", "too-deep")),
+                           P("hamt", "VerifHashBitsNext", must_reach=("end", "too-deep"))]},
+    "bounds": {"quick": "builder output == refHAMT (structure, names, bitfield, Tsizes, size) for 2 entries, fanout 8, depth<=2, buckets {0,1,7}; bit-slice agreement for all hashes/fanouts/depths"},
+    "assumptions": [], "outside": "",
+}
+
 NOT_APPLICABLE = {}
 NOTES = "All checks are bounded: every result reads 'holds for all values within the bounds recorded in the evidence file; nothing is claimed outside them'. exit 2 = inconclusive (never a pass)."
